@@ -19,6 +19,8 @@ func init() {
 }
 
 func runC08(c *Ctx) {
+	c.R.Rule("R12-google-validator-rederives-groups", "the Google group validator replaces the session's groups by the memberships it just found on every path, also when it finds none (round 8)", 1)
+	runGoogleValidatorRederivesGroups(c, "R12-google-validator-rederives-groups")
 	c.R.Rule("R11-authorised-on-the-reloaded-session", "a request that waited for the refresh lock continues — and is authorised — with the session reloaded from the store, overwritten as a whole (shared with C12.R2, round 7)", 1)
 	if a := c.c12Anchors("R11-authorised-on-the-reloaded-session"); a != nil {
 		c.checkRefreshProtocol("R11-authorised-on-the-reloaded-session", a)
